@@ -218,6 +218,12 @@ class BoundTemplate:
             return True
 
         uptodate = self.uptodate()
+        if isinstance(uptodate, Awaitable):
+            # The template was loaded asynchronously and its `uptodate` callable can
+            # only be awaited. Treat it as modified so the caller reloads it.
+            if hasattr(uptodate, "close"):
+                uptodate.close()
+            return False
         if not isinstance(uptodate, bool):
             raise LiquidError(
                 f"expected a boolean from uptodate, found {type(uptodate).__name__}",
